@@ -42,6 +42,13 @@ _UNREADABLE_REQUEST_ERRORS: tuple[type[BaseException], ...] = (
     pa.ArrowInvalid,
     pa.ArrowNotImplementedError,
     pa.ArrowSerializationError,
+    # A damaged dictionary-encoded column ("No record of dictionary type with
+    # id N") is an ArrowKeyError, and damaged framing can surface as any other
+    # member of the family; whatever pyarrow calls it, it is about the body.
+    pa.ArrowException,
+    # Invalid UTF-8 inside a string column only fails when the value is
+    # materialised (``as_py()``), i.e. while the parameters are read.
+    UnicodeDecodeError,
     OSError,
     StopIteration,
     IPCError,
